@@ -240,7 +240,7 @@ func (ex *Exec) valueEq(fr *frame, t types.Type, x, y Value) *Term {
 		return ex.B.Bool(b.Nil == a.Nil && a.Nil)
 	case *Func:
 		b := y.(*Func)
-		return ex.B.Bool((a.Fn == nil && a.Builtin == nil) == (b.Fn == nil && b.Builtin == nil))
+		return ex.B.Bool((a.Fn == nil && a.Builtin == nil && a.Model == nil) == (b.Fn == nil && b.Builtin == nil && b.Model == nil))
 	case *Iface:
 		b := y.(*Iface)
 		if a.T == nil || b.T == nil {
